@@ -140,7 +140,30 @@ def _violations(result: Any) -> list[tuple[str, int, int]]:
     return [("failed", s, a) for s, aa in tr.failed.items() for a in aa] + [("error", s, a) for s, aa in tr.error.items() for a in aa]
 
 
-def evaluate_session(case: dict, out: Any) -> None:  # noqa: C901
+def evaluate_session(case: dict, out: Any) -> None:
+    """Runs the session; a violation counts only if a second, independent run of the same case shows it again.
+
+    pynguin's filtering pass skips a test whose filtering execution hits the (wall-clock) execution timeout, so on a
+    heavily loaded machine an unverified assertion can survive once in a while; that is a timing effect, which this
+    framework classifies as inconclusive, never as a violation.  Deterministic defects reproduce on the second run.
+    """
+    from vf.core import Outcome
+
+    _session_once(case, out, attempt=0)
+    if not out.failures:
+        return
+    second = Outcome()
+    _session_once(case, second, attempt=1)
+    again = {sig for sig, _ in second.failures}
+    confirmed = [(sig, detail) for sig, detail in out.failures if sig in again]
+    if len(confirmed) != len(out.failures):
+        out.labels.append("session:violation-not-reproduced")
+        if not confirmed:
+            out.inconclusive = "violation-not-reproduced-on-second-run"
+    out.failures[:] = confirmed
+
+
+def _session_once(case: dict, out: Any, attempt: int) -> None:  # noqa: C901
     import pynguin.assertion.assertiongenerator as ag
     import pynguin.assertion.assertiontraceobserver as ato
     import pynguin.configuration as config
@@ -153,7 +176,7 @@ def evaluate_session(case: dict, out: Any) -> None:  # noqa: C901
     scratch = tempfile.mkdtemp(prefix="vf_c21_", dir=os.environ.get("VF_SCRATCH_DIR") or os.environ.get("VERIF_SCRATCH") or None)
     try:
         if case["module"] == "flaky":
-            name = "vfsut_c21_" + hashlib.sha1(repr(sorted(case.items())).encode()).hexdigest()[:10]
+            name = "vfsut_c21_" + hashlib.sha1(repr((sorted(case.items()), attempt)).encode()).hexdigest()[:10]
             with open(os.path.join(scratch, name + ".py"), "w", encoding="utf-8") as fh:
                 fh.write(flaky_source(int(case.get("flaky_mask", 15))))
             module_dir = scratch
